@@ -20,10 +20,10 @@ SPEC = dict(
             I('idfeat_ref_2_0', 'h_idfeat_ref', (2, 0), bound='2 identities, no feature'),
             I('idfeat_ref_1_1', 'h_idfeat_ref', (1, 1), bound='1 identity, 1 feature'),
             I('idfeat_ref_0_3', 'h_idfeat_ref', (0, 3), bound='no identity, 3 features (duplicates allowed)'),
-            I('idfeat_ref_2_3', 'h_idfeat_ref', (2, 3), bound='2 identities, 3 features (duplicates allowed)'),
+            I('idfeat_ref_2_3', 'h_idfeat_ref', (2, 3), tiers=('thorough',), timeout_s=900, bound='2 identities, 3 features (duplicates allowed)'),
             # (i)+(iii) two inputs hash the same string iff equal as sets / multisets; n = (|A|, |B|, shared identities)
             I('feat_iff_3_3', 'h_feat_iff', (3, 3, 1), bound='feature lists of 3 and 3 after one arbitrary identity'),
-            I('feat_iff_3_2', 'h_feat_iff', (3, 2, 1), bound='feature lists of 3 and 2 after one arbitrary identity'),
+            I('feat_iff_3_2', 'h_feat_iff', (3, 2, 1), tiers=('thorough',), timeout_s=900, bound='feature lists of 3 and 2 after one arbitrary identity'),
             I('feat_iff_3_1', 'h_feat_iff', (3, 1, 0), bound='feature lists of 3 and 1, no identity'),
             I('id_iff_2_2', 'h_id_iff', (2, 2), bound='identity lists of 2 and 2'),
             I('id_iff_2_1', 'h_id_iff', (2, 1), bound='identity lists of 2 and 1'),
@@ -36,6 +36,12 @@ SPEC = dict(
             I('form_ref_2s', 'h_form_ref', (1, 0, 1, 1, 2, 1, 2, 0), bound='two text-single fields, FORM_TYPE last'),
             I('form_ref_noft', 'h_form_ref', (1, 1, 1, 0, 1, 0, 0, 0), bound='form without FORM_TYPE (ignored)'),
             I('form_ref_1s_empty', 'h_form_empty_value', (), bound='FORM_TYPE + one text-single field with the empty value (regression for fix 13f5df9)'),
+        ]),
+        dict(name='mgr', harness='h_mgr.cpp', tus=['src/base/QXmppDataForm.cpp', 'src/base/QXmppDiscoveryIq.cpp', 'src/base/QXmppIq.cpp', 'src/base/QXmppStanza.cpp', 'src/client/QXmppClient.cpp'],
+             models=MODELS + ['c20_mgr_models.c'], cxxdefs={}, loop_bounds={}, instances=[
+            # n = (identities, features) of the arbitrary info set returned by the cut capabilities()
+            I('handle_info_1_2', 'h_handle_info', (1, 2), bound='info set with 1 identity and 2 features; query node and capabilities node 0..2 units'),
+            I('presence_caps_1_2', 'h_presence_caps', (1, 2), bound='info set with 1 identity and 2 features'),
         ]),
     ],
     bounds=['strings: 0..2 UTF-16 units over the alphabet {a, b, B}', '<= 2 identities (category/type/lang/name), <= 3 features with duplicates, optional form with FORM_TYPE (any position) and <= 2 further fields with <= 2 values',
